@@ -527,6 +527,13 @@ func (*c09) Oracle(ci, oi any) []hx.Violation {
 				pruning = true
 			}
 		}
+		// ... or the failed last revision was produced by a concurrent operation (a rejected request) and the
+		// install --replace read it as the last one: the same sequential K1
+		for i, op := range c.Ops {
+			if op.Kind == "install" && op.Flags.Replace && i < len(o.Ops) && o.Ops[i].FirstLast == "failed" {
+				failedLast = true
+			}
+		}
 		switch {
 		case pruning && !replace && !c9hasFault(c):
 			// K-C09-3: Storage.Create prunes and then creates, not atomically; a pruner with max-history 1 or 2 deletes the
